@@ -293,6 +293,9 @@ func (rd *remoteDelivery) connectionForDomain(ctx context.Context, domain string
 	}
 
 	if err := conn.Mail(ctx, rd.mailFrom, mailOpts); err != nil {
+		// The connection is not tracked in rd.connections, nobody else will
+		// return the destination permit taken above.
+		rd.rt.limits.ReleaseDest(domain)
 		conn.Close()
 		return nil, err
 	}
